@@ -39,7 +39,7 @@ Definition literal_value (t : tok) : option val :=
       (* float(<literal text>): correctly rounded decimal -> double (after fix F15) *)
       let n := digits_Z (grp t 2 ++ grp t 5) in let d := 10 ^ Z.of_nat (String.length (grp t 5)) in
       let f := if 0 <=? e then q2f (n * 10 ^ e) d else q2f n (d * 10 ^ (- e)) in
-      if f_is_inf f then None else Some (VFloat f)
+      Some (VFloat f)                                   (* an infinite value is rejected by emit_operand (fix 51bf86d) *)
     else Some (VInt (if String.eqb (grp t 7) "" then i else i * 10 ^ e))
   else if negb (String.eqb (grp t 1) "") || String.eqb (grp t 0) """""" then Some (VStr (grp t 1))
   else if negb (String.eqb (grp t 8) "") then Some (VBool true)
@@ -67,14 +67,16 @@ Definition operator_of (t : tree) : option opk :=
 Definition dummy : tree := Node 0 0 [].
 Definition HUNDRED : list pitem := [IOp ADiv; IAtom (PConst (VInt 100))].
 
-Inductive emitted := EOk (c : list pitem) | EUnmodelled | EFuel.
+Inductive emitted := EOk (c : list pitem) | ERejected | EUnmodelled | EFuel.
 
 (* OperandTokenTranslator on the operand kinds of the operator grammar *)
 Definition emit_operand (t : tree) : emitted :=
   match t with
   | Node _ _ [Leaf k] =>
       if Nat.eqb (tclass k) L_LiteralToken then
-        match literal_value k with Some v => EOk [IAtom (PConst v)] | None => EUnmodelled end
+        match literal_value k with
+        | Some (VFloat f) => if f_is_inf f then ERejected else EOk [IAtom (PConst (VFloat f))]
+        | Some v => EOk [IAtom (PConst v)] | None => EUnmodelled end
       else if Nat.eqb (tclass k) L_CellIdentifierToken then
         if String.eqb (grp k 3) "" && String.eqb (grp k 4) "" then EOk [IAtom (PCell (grp k 5 ++ grp k 6))] else EUnmodelled
       else EUnmodelled
@@ -133,6 +135,11 @@ Fixpoint emit (fuel : nat) (t : tree) : emitted :=
               | _, _ => EUnmodelled
               end
           | Some OPct =>
+              (* after x% only a sign can start the right-hand side (fix: "a percent sign followed directly by an operand is rejected") *)
+              if match right with
+                 | Some (Node _ _ (x :: _)) => negb (is_nt N_OneOperandArithmeticOperatorToken x)
+                 | Some _ => true
+                 | None => false end then ERejected else
               let body := ([INorm (l ++ HUNDRED)] ++ r)%list in
               EOk (if left_is_pct then [INorm body] else body)
           | Some (OArith o) =>
@@ -223,7 +230,11 @@ Section Eval.
 End Eval.
 
 (* ---------- the whole path for a formula text (one expression after "=") ---------- *)
-Definition is_cc (n : nat) := existsb (Nat.eqb n) cc_heads.
+(* is the class one of the control-construction heads (cls in {token[0] for token in ControlConstructionCompositeBaseToken.get_token_sets()});
+   tabulated once for speed, Proofs/AssembleProofs.is_cc_table proves the table equal to the membership test for every n *)
+Definition is_cc_slow (n : nat) : bool := existsb (Nat.eqb n) cc_heads.
+Definition cc_flags : list bool := Eval vm_compute in map is_cc_slow (List.seq 0 (List.length grammar_table)).
+Definition is_cc (n : nat) : bool := nth n cc_flags false.
 Inductive translated := TOk (e : pyexpr) | TRejected | TSyntaxError | TUnmodelled.
 Definition PARSE_FUEL : nat := 60.
 Definition tokens_of (formula : string) : option (option (list tok)) :=
@@ -238,6 +249,7 @@ Definition translate_tokens (ts : list tok) : translated :=
   | AOk t =>
       match emit 200 t with
       | EOk c => match regroup c with Some e => TOk e | None => TSyntaxError end
+      | ERejected => TRejected
       | _ => TUnmodelled
       end
   | AReject => TRejected
